@@ -250,7 +250,7 @@ Qed.
 Lemma c_set_meta_unmixed : forall c m, unmixed c -> unmixed (c_set_meta c m).
 Proof.
   intros [b|b|x|s|s|u] m H; cbn [c_set_meta].
-  - exact H.
+  - apply base_unmixed_iff. apply base_unmixed_iff in H. exact H.
   - apply ba_set_meta_unmixed. exact H.
   - apply dyn_unmixed_iff. apply dy_set_meta_unmixed. apply dyn_unmixed_iff. exact H.
   - apply stream_unmixed_iff. cbn [sc_inner]. apply in_set_meta_unmixed. apply stream_unmixed_iff. exact H.
